@@ -417,7 +417,15 @@ def POWER(
     https://support.office.com/en-us/article/
         power-function-d3f2908b-56f4-4c3f-895a-07fb519c362a
     """
-    return np.power(number, power)
+    if number == 0 and power < 0:
+        raise xlerrors.DivZeroExcelError()
+    if number < 0 and float(power) != int(power):
+        raise xlerrors.NumExcelError(
+            f'negative number {number} raised to fractional power {power}')
+    try:
+        return np.power(number, power)
+    except OverflowError:
+        raise xlerrors.NumExcelError('result too large')
 
 
 @xl.register()
